@@ -55,7 +55,9 @@ def _viol(prop, clause, spec, detail):
 # ------------------------------------------------------------------ streams
 def _stream_worker(job):
     spec, passes = job[:2]
-    r = drive(spec, passes=passes, keep_stream=True, interfere=job[2] if len(job) > 2 else None)
+    # (the interference pass also obtains every action through a fresh `for` statement)
+    r = drive(spec, passes=passes, keep_stream=True, interfere=job[2] if len(job) > 2 else None,
+              via_for=len(job) > 2)
     seen = {}
     for p, c, d in r["viol"]:
         seen.setdefault((p, c), d)
